@@ -46,4 +46,11 @@ theorem src_transform_records_new_coords :
     Gen.multiIndexTransformAlwaysRecords = true ∧ Gen.multiIndexInverseReadsChosenReference = true ∧
     Gen.multiIndexDictsSeparate = true := by decide
 
+/-- source obligation (cross-set models): in `transform` and `inverse_transform` the first field only ever touches
+`preprocessor1 / pca1 / whitener1` and the second only the `…2` objects, so each field is labelled by its own data -/
+theorem src_fields_use_their_own_objects :
+    Gen.crossTransformObjectsX = ["pca1", "preprocessor1", "whitener1"] ∧ Gen.crossTransformObjectsY = ["pca2", "preprocessor2", "whitener2"] ∧
+    Gen.crossInverseObjectsX = ["pca1", "preprocessor1", "whitener1"] ∧ Gen.crossInverseObjectsY = ["pca2", "preprocessor2", "whitener2"] := by
+  decide
+
 end C05
